@@ -36,7 +36,7 @@ def main():
             print("imported", rel)
     props = [c["property_id"] for c in json.load(open("/verif/MANIFEST.json"))["checks"]]
     rows = []
-    for d in sorted(glob.glob(os.path.join(ROOT, "C*", "*"))):
+    for d in sorted(glob.glob(os.path.join(ROOT, "[CR]*", "*"))):
         if not os.path.exists(os.path.join(d, "patch.diff")):
             continue
         pid, k = os.path.basename(os.path.dirname(d)), os.path.basename(d)
